@@ -16,9 +16,10 @@ from vf import foamdict, geom, hexconv, util
 from vf import xc19_round as xr
 
 ID = "C19"
-BUDGET = {"quick": 700, "thorough": 16000}
+BUDGET = {"quick": 2000, "thorough": 60000}
 MIN_KEYS = 60
 REQUIRED = [
+    "judged:slice:negative-index", "judged:file:unrelated-block-kept",
     "judged:grid-address", "judged:grid-address:Grid", "judged:grid-address:round-base",
     "judged:slice:axis0", "judged:slice:axis1", "judged:slice:axis2",
     "container:ExtrudedStack", "container:RevolvedStack", "container:TransformedStack",
@@ -174,6 +175,7 @@ def _gen_write(rng, base, con, dims):
     if nblocks > 1 and rng.random() < 0.7:
         ndel = rng.randint(1, min(3, nblocks - 1))
     w["delete"] = [list(c) for c in rng.sample(cells, ndel)]
+    w["extra"] = rng.choice([None, None, "before", "after"])
     if ndel:
         w["mode"] = "all"
     else:
@@ -435,8 +437,8 @@ def run_stack(ctx, case, cb):
     if con["cls"] in STACKS:
         axes = [(0, base["nx"], 2), (1, base["ny"], 1), (2, nt, 0)] if is_grid else [(2, nt, 0)]
         for axis, count, pos in axes:
-            for idx in range(count):
-                want = sorted(c for c in lat.index if c[pos] == idx)
+            for idx in list(range(count)) + list(range(-count, 0)):
+                want = sorted(c for c in lat.index if c[pos] == idx % count)
                 try:
                     ops = list(entity.get_slice(axis, idx))
                 except Exception as err:  # noqa: BLE001
@@ -444,6 +446,8 @@ def run_stack(ctx, case, cb):
                                   f"{tag} nx={base.get('nx')} ny={base.get('ny')} tiers={nt}: get_slice({axis}, {idx}) raised {err!r}")
                     return
                 ctx.count(f"judged:slice:axis{axis}")
+                if idx < 0:
+                    ctx.count("judged:slice:negative-index")
                 if len(set(_ids(ops))) != len(ops):
                     ctx.violation(f"slice:axis{axis}:{tag}:repeats", f"{tag}: get_slice({axis}, {idx}) returns {len(ops)} entries, "
                                   f"{len(set(_ids(ops)))} distinct")
@@ -487,7 +491,18 @@ def run_stack(ctx, case, cb):
                 for (k, l, n) in lat.index:
                     grid[k][l][n].chop(ax, count=w["n"])
     mesh = cb.Mesh()
+    far = lat.cc.mean(axis=0) + 50.0 * lat.char * geom.arr([1.0, 2.0, 3.0])
+    box = None
+    if w.get("extra"):
+        # an unrelated, fully chopped block far away, added before or after the entity under test
+        box = cb.Box(far - 0.5, far + 0.5)
+        for ax in range(3):
+            box.chop(ax, count=2)
+    if w.get("extra") == "before":
+        mesh.add(box)
     mesh.add(entity)
+    if w.get("extra") == "after":
+        mesh.add(box)
     for (k, l, n) in deleted:
         mesh.delete(grid[k][l][n])
     path = util.tmpfile("c19")
@@ -511,10 +526,20 @@ def run_stack(ctx, case, cb):
         util.rm(path)
     verts = np.array([v["pos"] for v in parsed["vertices"]], dtype=float)
     hits = {}
+    nbox = 0
     for h, blk in enumerate(parsed["blocks"]):
         hv = verts[blk["idx"]]
+        if box is not None and np.linalg.norm(hv.mean(axis=0) - far) < 1e-3:
+            nbox += 1
+            continue
         hits.setdefault(lat.nearest(lat.cc, hv.mean(axis=0)), []).append(h)
     ctx.count("judged:file:delete-by-address")
+    if box is not None:
+        ctx.count("judged:file:unrelated-block-kept")
+        if nbox != 1:
+            ctx.violation(f"delete-by-address:{tag}:unrelated-block-affected", f"{tag}: an unrelated Box added {w['extra']} the entity is "
+                          f"written {nbox} times after deleting grid addresses {sorted(deleted)}")
+            return
     missing = sorted(c for c in expect if c not in hits)
     extra = sorted(c for c in hits if c not in expect)
     twice = sorted(c for c, hs in hits.items() if len(hs) > 1)
@@ -631,9 +656,10 @@ def run_round(ctx, case, cb):
     ctx.key(["shape", name, spec.get("start_face"), spec.get("nseg"), spec.get("Rmid") is not None, sorted(t["t"] for t in post),
              None if not w else [d[0] for d in w["delete"]]], nontrivial=True)
     ctx.sample({"shape": name, "spec": _short(spec), "post": [t["t"] for t in post], "write": w})
+    full, name = name, spec["shape"].split(".")[0]  # mechanism keys: class of the shape; messages: how it was built
     ops = list(shape.operations)
     touch = {id(op): xr.touches(xr.op_points(op), surfaces) for op in ops}
-    where = f"{name} spec={_short(spec)} surfaces={[s.describe() for s in surfaces]}"
+    where = f"{full} spec={_short(spec)} surfaces={[s.describe() for s in surfaces]}"
     parts = {}
     for attr in ("core", "shell", "grid"):
         try:
